@@ -33,15 +33,17 @@ Record cfg := {
   flag_ref_ok : bool;          (* FLAG_REF honoured (marshal version >= 3); xdis: always *)
   mask_flag : bool;            (* bit 7 of the type byte is the FLAG_REF flag (xdis.unmarshal, marshal.c) or part of the code (xdis.marsh) *)
   unknown_err : bool;          (* an unknown type code raises (marshal.c, xdis.marsh) or yields None (xdis.unmarshal) *)
-  code_ok : Z -> bool          (* which type codes exist; xdis: its whole dispatch table *)
+  code_ok : Z -> bool;         (* which type codes exist; xdis: its whole dispatch table *)
+  neg_size_err : bool          (* the reader works on an in-memory buffer with its own bounds checks (xdis.marsh._FastUnmarshaller): a negative size is a
+                                  ValueError and any read past the end an EOFError, where a file object (io.BytesIO.read) reads to the end / returns less *)
 }.
 
-Definition err_eof (c : cfg) : err := if strict c then EOFErr else StructErr.
+Definition err_eof (c : cfg) : err := if strict c then EOFErr else if neg_size_err c then EOFErr else StructErr.
 
 (* fp.read(n): a negative n reads everything (io.BytesIO), a short read is not an error *)
 Definition read_n (c : cfg) (n : Z) (l : list Z) : result (list Z * list Z) :=
-  if n <? 0 then (if strict c then Err ValueErr else Ok (l, []))
-  else if zlen l <? n then (if strict c then Err EOFErr else Ok (l, []))
+  if n <? 0 then (if strict c then Err ValueErr else if neg_size_err c then Err ValueErr else Ok (l, []))
+  else if zlen l <? n then (if strict c then Err EOFErr else if neg_size_err c then Err EOFErr else Ok (l, []))
   else Ok (firstn (Z.to_nat n) l, skipn (Z.to_nat n) l).
 
 Definition read_u8 (c : cfg) (l : list Z) : result (Z * list Z) :=
@@ -289,7 +291,7 @@ Fixpoint r_object (fuel : nat) (c : cfg) (st : mstate) {struct fuel} : result (p
   | O => Err OutOfFuel
   | S f =>
       match inp st with
-      | [] => Err (if strict c then EOFErr else TypeErr)          (* ord(b'') *)
+      | [] => Err (if strict c then EOFErr else if neg_size_err c then EOFErr else TypeErr)          (* ord(b'') / end of buffer *)
       | byte1 :: l =>
           let flag := mask_flag c && negb (Z.land byte1 128 =? 0) in
           if strict c && flag && negb (flag_ref_ok c) then Err ValueErr else
